@@ -602,6 +602,15 @@ def corpus():
         c.append(Scn(True, True, abc, r3, 3600, L("7 C 192.0.2.7 5007 10.0.0.9 6667", "7 P :+x alan pw", "-1 X a.svc 7_1 :OK", "7 ! timeout", "-1 X %s 7_1 :OK alan:17" % order[0], "-1 X %s 7_1 :OK alan:18" % order[1],
                        "7 N h7.example.org", "7 u id7", "7 n Nick7", "7 U u7 :r", "7 D"), "timeout while data are missing, then two stragglers (%s first)" % order[0]))
     c.append(slot_reuse_history()); c.append(slot_reuse_history('login')); c.append(slot_reuse_history(expire=True))
+    # the same release-and-refill while a challenge of the old occupant is open: the client's next password line answers nobody
+    # (the newcomer never challenged it); the newcomer is asked in its own right
+    for newtype in ('login', 'dronecheck', 'combined'):
+        for keep in (False, True):
+            old = [('a.svc', 'login')] + ([('z.svc', 'dronecheck')] if keep else [])
+            mid = [x for x in old if x[0] != 'a.svc']
+            c.append(Scn(True, False, old, [], 0, L("5 C 1.2.3.4 1 10.0.0.1 6667", "5 P :+x acct pw", "-1 X a.svc 5_1 :MORE what is the word?") + [('R', mid, [], 0), ('R', sorted_svcs(mid + [('b.svc', newtype)]), [], 0)] +
+                         L("5 P :token-123456", "5 u alice", "5 n Alice", "5 U alice :Alice A", "5 N h.example.org", "-1 X b.svc 5_1 :OK acct:1", "5 H", "5 D"),
+                         "a released slot is refilled while a challenge of the old occupant is open (%s%s)" % (newtype, ", another service present" if keep else "")))
     return c
 
 def mode_family():
